@@ -122,7 +122,18 @@ def bounded(text: str) -> bool:
     return True
 
 
-def corrupt(rng: random.Random, text: str, others: list[str], svc_names: list[str]) -> tuple[str, str]:
+ATTR_CORNERS = ["@print {T}.{a}", "uint8 AX_K = {T}.{a}", "uint8[<={T}.{a}] ax_arr", "@assert {T}.{a} == 64", "@print {T}.{a}.min", "@print {T}.{a}._bit_length_",
+                "@print {T}.{a} + 1", "@extent {T}.{a}", "float32 AX_F = {T}.{a}", "@print {{{T}.{a}}}", "@print {T}._bit_length_.{a}"]
+
+
+def corrupt(rng: random.Random, text: str, others: list[str], svc_names: list[str], type_attrs: list | None = None) -> tuple[str, str]:
+    if type_attrs and rng.random() < 0.08:
+        # an attribute-reference expression that names a field / union variant / constant / pseudo-member of a composite type
+        tname, attrs = rng.choice(type_attrs)
+        frag = rng.choice(ATTR_CORNERS).replace("{T}", tname).replace("{a}", rng.choice(attrs)).replace("{{", "{").replace("}}", "}")
+        lines = text.split("\n")
+        i = rng.randint(0, len(lines))
+        return "attr_corner", "\n".join(lines[:i] + [frag] + lines[i:])
     kind = rng.choice(["torn_line", "torn_token", "torn_char", "lost_block", "dup_block", "splice", "tok_delete", "tok_dup", "tok_swap",
                        "tok_replace", "noise", "noise", "corner", "corner", "corner", "corner", "corner", "corner", "svc_corner"])
     lines = text.split("\n")
@@ -207,10 +218,15 @@ class C13(Check):
         scn: dict = {"ws": ws, "read_seed": rng.randrange(1 << 30), "fault": None}
         texts = {k: render(d, None)[0] for k, d in uni.defs.items()}
         svc = [k for k in keys if T.is_service(uni.defs[k])]
+        type_attrs = []
+        for k0 in keys:
+            d0 = uni.defs[k0]
+            names = [it[2] for s0 in d0["secs"] for it in s0["items"] if it[0] in ("f", "c")] + (["request", "response", "Request", "Response"] if T.is_service(d0) else ["value", "request"])
+            type_attrs.append((k0, names))
         if rng.random() < 0.8:
             for _ in range(20):
                 k = rng.choice(keys)
-                kind, text = corrupt(rng, texts[k], [texts[x] for x in keys if x != k], svc)
+                kind, text = corrupt(rng, texts[k], [texts[x] for x in keys if x != k], svc, type_attrs)
                 if text != texts[k] and bounded(text):
                     scn["fault"] = {"k": "text", "def": k, "kind": kind, "text": text}
                     break
@@ -266,6 +282,22 @@ class C13(Check):
                 reads.append(op)
             all_files = {uni.file_of(k) for k in uni.defs} | set(stray_paths)
             recovery = dict(reads[0])
+            offending = None
+            if f["k"] == "text":
+                # the corrupted file read on its own: if that alone is rejected, the file is offending by itself, and - every
+                # other file being valid and unchanged - each read that reaches it must name *it*, not the file that refers to it
+                ri0 = uni.root_of[f["def"]]
+                sres = w.run_read({"op": "rf", "files": [{"p": uni.file_of(f["def"])}], "roots": [{"p": uni.roots[ri0]["dir"]}],
+                                   "lookups": [{"p": r0["dir"]} for i0, r0 in enumerate(uni.roots) if i0 != ri0], "key": None, "cwd": "", "allow_unreg": True})
+                out.stats["standalone_reads"] += 1
+                # not if the corruption introduced a reference to another definition: a new edge can close a cycle, which is
+                # legitimately reported where the cycle closes (in the other file)
+                shorts = {k0.split(".")[-3].lower() for k0 in uni.defs}
+                def mentions(t: str) -> set:
+                    return {x.split(".")[-1].lower() for x in re.findall(r"([A-Za-z_][A-Za-z0-9_.]*?)\s*\.\s*\d+\s*\.\s*\d+", t)}
+                new_refs = mentions(f["text"]) - mentions(w.texts[f["def"]])
+                if not sres["ok"] and classify_exc(sres["exc"]) == "IDE" and not new_refs:
+                    offending = uni.file_of(f["def"])
             for i, op in enumerate(reads):
                 res = w.run_read(op)
                 out.stats["reads"] += 1
@@ -303,6 +335,12 @@ class C13(Check):
                 rel = w.rel(ei["path"])
                 if rel not in all_files and not any(rel == r0["dir"] or rel.startswith(r0["dir"] + "/") for r0 in ws["roots"]):
                     out.fail("C13.path", "read %d: %s raised %s with path %s, which is not a file of the workspace" % (i, kind, ei["cls"], rel), "foreignpath:" + ei["cls"])
+                elif offending is not None and rel != offending and rel in all_files:
+                    out.stats["path_attribution_checked"] += 1
+                    out.fail("C13.path", "read %d: %s in %s (rejected when read on its own; every other file is valid) is reported as %s with path %s (%s)" % (
+                        i, kind, offending, ei["cls"], rel, how), "wrongfile:" + how)
+                elif offending is not None:
+                    out.stats["path_attribution_checked"] += 1
             # history: the storage fault is repaired (original text restored, stray entry removed) and the same process reads
             # the same directory again: nothing of the failed attempt may be remembered
             if f["k"] == "text":
